@@ -49,3 +49,6 @@ theories/Modular.vos theories/Modular.vok theories/Modular.required_vos: theorie
 theories/FromMatAlg.vo theories/FromMatAlg.glob theories/FromMatAlg.v.beautified theories/FromMatAlg.required_vo: theories/FromMatAlg.v 
 theories/FromMatAlg.vio: theories/FromMatAlg.v 
 theories/FromMatAlg.vos theories/FromMatAlg.vok theories/FromMatAlg.required_vos: theories/FromMatAlg.v 
+theories/UnitAlg.vo theories/UnitAlg.glob theories/UnitAlg.v.beautified theories/UnitAlg.required_vo: theories/UnitAlg.v 
+theories/UnitAlg.vio: theories/UnitAlg.v 
+theories/UnitAlg.vos theories/UnitAlg.vok theories/UnitAlg.required_vos: theories/UnitAlg.v 
